@@ -35,7 +35,7 @@ theorem shared_state_inventory :
     GGV.Gen.packageVars.all (fun v =>
       v.2 == "*analysis.Analyzer" || v.2 == "*regexp.Regexp" || v.2 == "*ahocorasick.Matcher" ||
       v.2 == "map[string][]codes.Code" || v.2 == "map[string][]string" || v.2 == "*config.Config" || v.2 == "sync.Once" ||
-      v.2 == "read-only data") = true := by decide
+      v.2 == "read-only data" || v.2 == "read-only list") = true := by decide
 
 /-- **lookups do not write**: of the methods that the checkers — which run concurrently on one package and share
     the readers' results (the ignore set, the annotations, the configuration) — call on reader / utility types,
